@@ -217,6 +217,21 @@ func checkC06(sc *Scenario, res *RunResult, t *Truth) []Violation {
 			}
 		}
 	}
+	// a command that was running when the shutdown was requested must at least have been sent a
+	// signal (a shutdown that waits for ever on a command it never signalled does not return,
+	// so the clause below would never see it)
+	if shut != nil {
+		for _, p := range sc.Project.Procs {
+			if p.StopCmd != "" {
+				continue
+			}
+			for _, L := range t.ByRep[p.Name] {
+				if L.ExecSeq < shut.CallSeq && L.ExitSeq < 0 && len(L.Kills) == 0 && t.EndT-shut.CallT > 30*time.Second {
+					add("command-never-signalled", "", fmt.Sprintf("%s (pid %d, launched at t=%v) was running when the project shutdown was requested at t=%v and has not been sent any signal %v later", p.Name, L.Pid, L.ExecT, shut.CallT, t.EndT-shut.CallT), shut.CallSeq)
+				}
+			}
+		}
+	}
 	if t.RunRet >= 0 && !t.Hang && shut != nil {
 		for _, p := range sc.Project.Procs {
 			if p.ParentOnly {
@@ -402,6 +417,18 @@ func genC06(r *R, sc *Scenario, tier string) {
 		sc.Clients = append(sc.Clients, Client{Name: "c", Ops: ops})
 	}
 	sc.OrderedShutdown = r.P(300)
+	if r.P(60) {
+		// injection-point sweep: the stop (or the project shutdown) lands at every scheduler step
+		// of a baseline run, the launch windows included
+		sc.Clients = []Client{{Name: "sweep", Ops: []Op{{Op: Pick(r, "stop", "stop", "shutdown"), Arg: spec.Procs[r.Intn(n)].Name}}}}
+		sc.Strategy = genStrategy(r)
+		sc.Strategy.StallPermille = 0
+		sc.IterMode = Pick(r, 0, 0, 1, 2, 3)
+		sc.RunForMs = 8000
+		sc.QuietMs = 15000
+		sc.Arm = "sweep"
+		return
+	}
 	sigAt := 0
 	if r.P(350) {
 		// the project is shut down by SIGTERM / SIGINT / SIGHUP sent to the binary
